@@ -41,6 +41,13 @@ def ill_edits(cols, engine_kind):
         E.append(("selection unsupported (nested under NOT / comparison)", ("EngineError",),
                   lambda ch, o: ("sel", ch, ("not", ("gt", ("rneg", ("rneg", A, other), "both"), ("lit", "$k9"))), None)))
         E.append(("selection unsupported by engine", ("EngineError",), lambda ch, o: ("sel", ch, ("rgt", A, ("lit", "$k9"), "sq" if engine_kind == "it" else "it"), None)))
+    if "a" in cols and "d" not in cols:
+        # the same predicate object first in a well-typed join (the other operand supplies d), then on a relation without d
+        P = ("lt", A, ("ref", "d"))
+        other_leaf = "Z" if engine_kind == "sq" else None
+        if other_leaf:
+            E.append(("selection reusing the predicate object of an earlier well-typed join", ("ColumnError", "RowOrderError"),
+                      lambda ch, o: ("sel", ("proj", ("join", ch, ("leaf", other_leaf), P), tuple(sorted(cols))), P, o)))
     E.append(("selection only missing column", ("ColumnError",), lambda ch, o: ("sel", ch, ("gt", Zc, ("lit", "$k9")), o)))
     E.append(("projection of missing column", ("ColumnError",), lambda ch, o: ("proj", ch, ("a", "z") if "a" in cols else ("z",), o)))
     E.append(("projection onto all columns plus a missing one", ("ColumnError",), lambda ch, o: ("proj", ch, tuple(sorted(cols)) + ("z",), o)))
